@@ -57,7 +57,7 @@ def check_case(run, case, tier='quick'):
         exhaustive = total <= 300 or (tier == 'thorough' and total <= 1500)
         Ns = list(range(1, total + 3)) if exhaustive else sorted(n for n in bounds | set(rng.sample(range(1, total), 40)) if n >= 1)
         for n in Ns:
-            r = session.run_main(['-r', name, '-s', sn, '-n', str(n)] + fl)
+            r = session.run_main(['-r', name, '-s', sn, '-n', str(n)] + fl, max_guesses=total + 1000)
             run.ev('limit_runs')
             exp = Ug[:n]
             if r.guesses != exp or r.exc is not None:
@@ -69,14 +69,14 @@ def check_case(run, case, tier='quick'):
             run.ev('rulesets_with_every_N')
         # ---- honeyword modes honour --limit too: exactly N words; random_walk prefixes are consistent
         if not case['flags'].get('skip_brute') or True:
-            big = session.run_main(['-r', name, '-s', sn, '-m', 'random_walk', '-n', '25'] + fl)
+            big = session.run_main(['-r', name, '-s', sn, '-m', 'random_walk', '-n', '25'] + fl, max_guesses=5000)
             if big.exc is None and len(big.guesses) == 25:
                 for n in (1, 2, 7, 24):
-                    r = session.run_main(['-r', name, '-s', sn, '-m', 'random_walk', '-n', str(n)] + fl)
+                    r = session.run_main(['-r', name, '-s', sn, '-m', 'random_walk', '-n', str(n)] + fl, max_guesses=5000)
                     run.ev('limit_runs'); run.ev('random_walk_limit_runs')
                     if r.guesses != big.guesses[:n]:
                         run.violation(f'random_walk --limit {n} is not the first {n} words of --limit 25', case, observed=r.guesses[:5], expected=big.guesses[:n][:5]); return
-                r = session.run_main(['-r', name, '-s', sn, '-m', 'honeywords', '-n', '9'] + fl)
+                r = session.run_main(['-r', name, '-s', sn, '-m', 'honeywords', '-n', '9'] + fl, max_guesses=5000)
                 run.ev('limit_runs')
                 if len(r.guesses) != 9:
                     run.violation(f'honeywords --limit 9 wrote {len(r.guesses)} words', case); return
